@@ -103,13 +103,18 @@ func (r *FeatureRemote) SetMaxResponseDelay(delay *model.MaxResponseDelayType) {
 	}
 	p, err := period.Parse(string(*delay))
 	if err != nil {
+		r.mux.Lock()
 		r.maxResponseDelay = util.Ptr(p.DurationApprox())
+		r.mux.Unlock()
 	} else {
 		logging.Log().Debug(err)
 	}
 }
 
 func (r *FeatureRemote) MaxResponseDelayDuration() time.Duration {
+	r.mux.Lock()
+	defer r.mux.Unlock()
+
 	if r.maxResponseDelay != nil {
 		return *r.maxResponseDelay
 	}
